@@ -119,7 +119,7 @@ Record retry_spec (cfg : rcfg) (script : list attempt) (tr : trace) (res : resul
 }.
 
 Lemma convert_not_nil : forall e, convert e <> RNil.
-Proof. intros [i|[|]]; discriminate. Qed.
+Proof. intros [i s|[|]]; discriminate. Qed.
 
 Lemma run_spec : forall cfg script sched m,
   c_enabled cfg = true -> c_attempts cfg = S m ->
